@@ -7,7 +7,7 @@ DEC = CORE + ["GenHeader", "GenTypes", "GenTracker", "GenReader", "GenRData"]
 
 PROPS = {
     "C01": {"level": "proof", "areas": DEC, "theorems": ["C01_name_walk_total", "C01_name_walk_bound", "C01_never_out_of_bounds", "C01_cursor_total"], "streams": ["scripts", "decode"]},
-    "C04": {"level": "proof", "areas": DEC, "theorems": [], "streams": ["rdlen"]},
+    "C04": {"level": "proof", "areas": DEC, "theorems": ["C04_exact", "C04_noninterference", "C04_raw"], "streams": ["rdlen"]},
     "C05": {"level": "proof", "areas": CORE + ["GenWriter"], "theorems": ["C05_parse_iff_valid", "C05_from_str", "C05_decoded_valid"], "streams": ["nametext"]},
     "C18": {"level": "proof", "areas": ["GenConst", "GenNames"], "theorems": ["C18_eq_iff_cmp", "C18_eq_is_fold", "C18_cmp_is_lex", "C18_cmp_antisym", "C18_cmp_trans", "C18_hash", "C18_hash_is_fold"], "streams": ["nameord"]},
     "C11": {"level": "proof", "areas": CORE + ["GenWriter", "GenQuery", "GenHeader"], "theorems": ["C11_no_oob_write", "C11_refuse_invalid", "C11_name_encoder_sound", "C11_std_async_same", "C11_example"], "streams": ["wire"]},
@@ -25,10 +25,10 @@ TEXT = {
  "C01": {"text": "Proved in Coq for all byte strings: the label/pointer walker (the only loop driven by attacker-chosen pointers) returns a value or an error within 34*(|buf|+2) iterations (measure given); every cursor primitive is total; no call of ANY script, conforming or not, reaches an out-of-bounds access. Panic-freedom of the tracker arithmetic and of the iterator/from_msg drivers for conforming scripts is carried by the differential streams (scripts, decode: debug build with overflow/ub checks + release build with guard pages), not yet by a theorem: stated as partial.",
          "technique": "Coq proof (termination measure, no-UB invariant over arbitrary scripts) + differential streams"},
  "C03": {"text": "Coq theorems: soundness of read/skip w.r.t. an inductive RFC 1035 4.1.4 expansion relation on the visible buffer (labels unchanged, resume after first pointer/terminator, all labels valid, <=255 octets), totality (value or error, never panic/UB/loop), rejection of everything without a legal expansion. Completeness (every legal layout accepted) is checked by the code-blind executable expander used as oracle on 6k/200k generated pointer graphs."},
- "C04": {"text": "RDLENGTH-window streams with self-contained oracle (two tails, next-record offset, must-reject for fixed formats); Coq theorems about window exactness in progress.", "technique": "differential + metamorphic oracle; Coq model"},
+ "C04": {"text": "Coq theorems for all 17 typed decoders and all byte strings: success consumes exactly RDLENGTH octets and restores the buffer (so unused bytes, missing bytes and straddling fields are errors); the outcome (value, error, cursor) is identical for any two equal-length messages that agree up to the end of the record data; raw access returns exactly those octets. Stream: RDLENGTH true+{-2..2}, 0, spanning the next record, 65535, chunk lengths +-1, two different tails, next-record offset."},
  "C05": {"text": "Coq theorems for all byte strings: the shared text checker accepts exactly the code-blind valid_text; both parsers return the same spelling plus root dot or an error value; every decoded name is a valid text name and re-parses to itself. Encoder agreement and encode/decode round trip are checked by the hooked encoder stream with guard-paged exact-size buffers against the same spec."},
  "C10": {"text": "Coq theorem: in every world reachable by ANY call script the three random-access calls equal fixed functions of (message, marker) that do not mention the reader; witness for the formerly failing history (typed read failing inside its window)."},
- "C11": {"text": "Hooked QueryWriter stream against an RFC-layout oracle written independently in the checker and against the Gallina Writer model (leaves translated from source); Coq theorems about the writer in progress.", "technique": "differential + layout oracle; Coq model"},
+ "C11": {"text": "Coq theorems about the Writer model: the query writer is never UB for any buffer/name/type/class/OPT; a produced query implies a valid name (invalid names are refused); name encoder output <=255; std and async prepare_message extensionally equal (leaves translated separately from both sources); exact bytes of an EDNS query by vm_compute. The exact-layout claim for all inputs is checked by the hooked QueryWriter stream against an RFC-layout oracle written independently in the checker; what the four clients put on the wire is observed by the netlab stream (when built)."},
  "C17": {"text": "Coq theorem: for every family of messages and every script of public calls (any order, markers and borrowed names exchanged between readers) no step is UB, and raw access returns a slice inside the message. Stream: non-conforming scripts in a debug build (ub_checks abort) and a release build with PROT_NONE guard pages."},
  "C18": {"text": "Coq theorems for all byte strings: == iff cmp = Eq; == iff equal case-folded text; cmp is the lexicographic order on the folded text (antisymmetric, transitive); equal names feed identical bytes to the hasher. Stream checks both name types, cross-type equality, conversions and name == &str against parse-then-compare."},
 }
